@@ -32,6 +32,7 @@ def run(ctx):
     conversions(ctx, I, G)
     poles(ctx, I, G)
     lambert(ctx, I, G)
+    array_calls(ctx, I, G)
     density(ctx, I)
 
 
@@ -93,6 +94,17 @@ def poles(ctx, I, G):
     e = A[:, 0, :]
     nr = [Sqrt(sum((e[g, i] * e[g, i] for i in range(3)), ZERO)) for g in range(N)]
     ident_arr(ctx, "C20.poles", "poles[default]:xvals == A[:,0,0]/|A[:,0,:]|", out[0], mkarr([e[g, 0] / nr[g] for g in range(N)]), loc)
+
+
+def array_calls(ctx, I, G):
+    """The conversion and projection functions called on ARRAYS (as poles / point_density call them): this is where the rules that every
+    interpreted public function gets apply -- arguments left untouched, no element type inherited from an argument, early-exit paths, call history."""
+    for name, nargs in (("to_cartesian", 3), ("to_spherical", 3), ("lambert_equal_area", 3)):
+        args = [symarr(f"{name[:4]}{k}", (2,)) for k in range(nargs)]
+        try:
+            call_public(ctx, I, G + name, *args)
+        except Abort:
+            pass
 
 
 def lambert(ctx, I, G, extra_args=(), extra_kwargs=None, tag="", loc=None):
